@@ -152,6 +152,15 @@ func c02History(r *hx.Run, w *W, rnd *rand.Rand, hi int, epochs []c02Epoch) {
 			r.Add("waiter_client_aborts", 1)
 		}
 		_ = aborted
+		if ep.Variant == "evicted_during_fetch" {
+			// the fetching entry is pushed out of its (2-entry) shard while waiters hold on to it
+			for f := 0; f < 40; f++ {
+				w.Cl.Get(w.Addr, "c02.example", fmt.Sprintf("/c02fill/%d", f))
+			}
+			if st, _ := entryState("c02", key); !st.Exists {
+				r.Add("fetching_entries_evicted_with_waiters", 1)
+			}
+		}
 		if ep.Variant == "held_registered_purge" {
 			cache.RemoveHTTPCache("c02", []byte(key))
 			r.Add("purges_racing_completion", 1)
@@ -237,7 +246,7 @@ func c02History(r *hx.Run, w *W, rnd *rand.Rand, hi int, epochs []c02Epoch) {
 				}
 			}
 			switch {
-			case res.Err == nil && res.Label == "hit" && res.FetchID == fid && own == 0 && (ep.Outcome == "cacheable" || ep.Outcome == "client_abort"):
+			case res.Err == nil && res.Label == "hit" && res.FetchID == fid && own == 0 && (ep.Outcome == "cacheable" || ep.Outcome == "client_abort" || ep.Outcome == "panic_hook"):
 				fromFetch++
 			case res.Err == nil && res.Status == 200 && own == 1 && (res.Label == "hitForPass" || res.Label == "fetching"):
 				wentUp++
@@ -253,7 +262,7 @@ func c02History(r *hx.Run, w *W, rnd *rand.Rand, hi int, epochs []c02Epoch) {
 		r.Add("waiters_served_from_fetch", int64(fromFetch))
 		r.Add("waiters_went_upstream", int64(wentUp))
 		tr["from_fetch"], tr["went_upstream"], tr["fetcher_status"], tr["fetcher_label"] = fromFetch, wentUp, resF.Status, resF.Label
-		if ep.Outcome == "cacheable" && ep.Variant != "held_registered_purge" && wentUp > 0 && ep.Variant != "late" {
+		if ep.Outcome == "cacheable" && ep.Variant != "held_registered_purge" && ep.Variant != "evicted_during_fetch" && wentUp > 0 && ep.Variant != "late" {
 			r.Violate("waiter_not_served_from_cacheable_fetch", map[string]string{"outcome": ep.Outcome, "variant": ep.Variant}, "fetch was cacheable but a parked waiter went upstream", tr, cs)
 			return
 		}
@@ -274,7 +283,7 @@ func c02History(r *hx.Run, w *W, rnd *rand.Rand, hi int, epochs []c02Epoch) {
 		if ep.Outcome == "cacheable" && ep.Variant != "held_registered_purge" {
 			wantLabel = "hit"
 		}
-		if ep.Variant != "held_registered_purge" && ep.Outcome != "client_abort" && ep.Outcome != "panic_hook" && probe.Label != wantLabel {
+		if ep.Variant != "evicted_during_fetch" && ep.Variant != "held_registered_purge" && ep.Outcome != "client_abort" && ep.Outcome != "panic_hook" && probe.Label != wantLabel {
 			r.Violate("followup_label", map[string]string{"outcome": ep.Outcome, "variant": ep.Variant}, fmt.Sprintf("follow-up labelled %q, expected %q", probe.Label, wantLabel), map[string]interface{}{"probe": probe.Brief(), "trace": trace}, cs)
 			return
 		}
@@ -311,10 +320,10 @@ func c02(r *hx.Run) {
 	r.Rule = "quick: every fetch outcome {cacheable, uncacheable, 5xx, upstream protocol error, cacheable headers with an undecodable body (no response object), hang > ProxyTimeout (504), panic at the proxy hook, truncated upstream body (net/http abort panic), fetcher's client drops its connection} x every waiter position {parked, one waiter registered but not yet receiving, the same + purge of the key, arriving after completion} x repeats; thorough adds random outcome sequences of length 2-6 on one key. Verdict at quiescence on hooked entry state (status, registered waiters), on every request having returned, and on a follow-up request. Non-trivial = history in which >=1 waiter was parked; distinct = (outcome,variant,waiters) sequence."
 	r.Assume = []string{"virtual clock, hook points (tag-guarded)", "ProxyTimeout 200ms so that a hanging upstream ends the fetch", "-race build"}
 	rnd := rand.New(rand.NewSource(r.Seed))
-	w := newSimpleWorld(r, hx.SimpleCfg{CacheName: "c02", HitForPass: "2s", Timeout: "200ms"}, 1, true)
+	w := newSimpleWorld(r, hx.SimpleCfg{CacheName: "c02", CacheSize: 16, HitForPass: "2s", Timeout: "200ms"}, 1, true)
 	defer w.Farm.Close()
 	w.Pts = hx.InstallPoints(r.Seed)
-	variants := []string{"parked", "held_registered", "held_registered_purge", "late", "waiter_client_abort"}
+	variants := []string{"parked", "held_registered", "held_registered_purge", "late", "waiter_client_abort", "evicted_during_fetch"}
 	hi := 0
 	reps := r.Pick(2, 8)
 	for rep := 0; rep < reps; rep++ {
